@@ -244,9 +244,13 @@ class CliffordState:
     def state_vector(self) -> np.ndarray:
         return self.ch_form.state_vector()
 
+    def _ordered_qubits(self) -> list[cirq.Qid]:
+        # The axis of a qubit is the index the map gives it, not its position in the dict.
+        return sorted(self.qubit_map, key=self.qubit_map.__getitem__)
+
     def apply_unitary(self, op: cirq.Operation) -> None:
         ch_form_args = clifford.StabilizerChFormSimulationState(
-            prng=np.random.RandomState(), qubits=self.qubit_map.keys(), initial_state=self.ch_form
+            prng=np.random.RandomState(), qubits=self._ordered_qubits(), initial_state=self.ch_form
         )
         try:
             act_on(op, ch_form_args)
@@ -275,7 +279,7 @@ class CliffordState:
         ch_form_args = clifford.StabilizerChFormSimulationState(
             prng=prng,
             classical_data=classical_data,
-            qubits=self.qubit_map.keys(),
+            qubits=self._ordered_qubits(),
             initial_state=state.ch_form,
         )
         act_on(op, ch_form_args)
